@@ -263,6 +263,8 @@ impl StringGenerator {
         if cur_fore_rgb != state.fg.get_rgb() {
             if let Some(fg_idx) = fore_idx {
                 sgr.push(COLOR_OFFSETS[fg_idx] + 30);
+                // the terminal is on DOS colour fg_idx now (SGR 1 brightens THAT colour), whatever palette slot the cell used
+                fg = fg_idx as u32 + if is_bold { 8 } else { 0 };
             } else if let Some(ext_color) = self.extended_color_hash.get(&cur_fore_rgb) {
                 sgr.push(38);
                 sgr.push(5);
